@@ -120,7 +120,7 @@ def run(ctx):
     styles = [""] + [open(os.path.join(corpus.REPO, "etc", f), errors="replace").read() for f in sorted(os.listdir(os.path.join(corpus.REPO, "etc")))
                      if f.endswith(".cfg") and f not in ("defaults.cfg",)][:8]
     # configurations that set every option at random: two- and three-option interactions are all present in some of them
-    fulls = [cfggen.random_full_config(ctx.rng, unc, keep_default=ctx.rng.choice([0.0, 0.3, 0.6])).replace("code_width=", "#code_width=") for _ in range(24 if quick else 200)]
+    fulls = [cfggen.random_full_config(ctx.rng, unc, keep_default=ctx.rng.choice([0.0, 0.3, 0.6])).replace("\ncode_width=", "\n#code_width=") for _ in range(24 if quick else 200)]
     jobs = []
     meta = {}
     n_in = 260 if quick else 3000
@@ -161,6 +161,14 @@ def run(ctx):
                 i = len(jobs)
                 jobs.append((runner, tmp, i, fr.encode(), lg, cfgt, False, use_asan))
                 meta[i] = ("frag", fr.encode(), lg, cfgt)
+    # inputs that once broke the property (kept so that the repair is checked on every run): regress/C06
+    rdir = os.path.join(os.path.dirname(os.path.dirname(os.path.dirname(os.path.abspath(__file__)))), "regress", "C06")
+    if os.path.isdir(rdir):
+        for f in sorted(os.listdir(rdir)):
+            r_ = json.load(open(os.path.join(rdir, f)))
+            i = len(jobs)
+            jobs.append((runner, tmp, i, r_["src_bytes"].encode("latin-1"), r_["lang"], r_["cfg_text"], bool(r_.get("quiet")), use_asan))
+            meta[i] = ("regress/" + f, r_["src_bytes"].encode("latin-1"), r_["lang"], r_["cfg_text"])
     # capacity probes: every bracket kind nested deeper than any fixed-size table (1024 in check_template, frame stacks), closed and open
     for opener, closer in (("T<a", ">"), ("(", ")"), ("[", "]"), ("{", "}"), ("f(", ")"), ("if (a) ", ""), ("a ? b : ", ""), ("!", ""), ("*", ""), ("#if A\n", "#endif\n")):
         for depth in ((1100,) if quick else (300, 1100, 2500)):
